@@ -9,7 +9,7 @@ OWNERS = (P1, P2, PR)
 NAMES = ("a", "b", "c", "d", "e", "f")
 # action names that are prefixes / substrings of each other, empty, blank, or look like other tokens
 TRICKY_NAMES = ("a", "aa", "ab", "", " ", "b", "None", "a,b", "Down", "down", "0")
-REWARD_POOL = (0, 0, 0, 1, 1, 2, 3, 5, 0.5, 7.25, 1000, 1e6, 1e-3, 2.5e7)
+REWARD_POOL = (0, 0, 0, 1, 1, 2, 3, 5, 0.5, 7.25, 1000, 1e6, 1e-3, 2.5e7, -0.0, True)
 GENERIC_REWARDS = (0, 1, 2.5, 3.25, 5 / 7, 11 / 7, 13 / 7, 1.4142135623730951, 0.3, 4.75, 6.125, 17 / 3)
 
 
@@ -120,7 +120,9 @@ def stopping_games(draw, min_inner=1, max_inner=8, dyadic=None, rewards=REWARD_P
         players[ids[a]] = pl
         rew[ids[a]] = 0
         if pl == PR:
-            tl[ids[a]] = [(1, ids[a])] if draw(st.integers(0, 5)) else [(0.5, ids[a]), (0.5, ids[a])]
+            k = draw(st.integers(0, 7))
+            tl[ids[a]] = [(0.5, ids[a]), (0.5, ids[a])] if k == 0 else [(True, ids[a])] if k == 1 else \
+                [(1.0, ids[a])] if k == 2 else [(1, ids[a])]
         else:
             tl[ids[a]] = [("stay", ids[a])]
     finals = [ids[f] for f in finals_a]
